@@ -26,3 +26,8 @@ package sseutil
 //@   modifies sw.eventCounter, gens, lastgen, lastgenw
 //@   ensures[C10 counter-strictly-increases] sw.eventCounter == old(sw.eventCounter) + 1
 //@   ensures[C10 id-text-carries-the-counter] idctr(result) == sw.eventCounter
+
+// C09 — a data line of an event is a whole line of the message: the payload is split at its own line
+// breaks only (a reader joins data lines with LF)
+//@ func Writer.WriteEvent
+//@   before call Fprintf#2 assert[C09 a-data-line-is-a-whole-line-of-the-message] len(arg2) == 1 && arg2[0] == asany(lines[rangeindex + 1]) && arg1 == "data: %s\n"
